@@ -361,6 +361,7 @@ def relay_capacity(P, R, rule='C05.BND.2'):
 
 def run(P, R, tier):
     mode_update(P, R)
+    rules.bitset_primitives(P, R, 'C05.TAB.3')
     relay_capacity(P, R)
     # an account stamp "for this instance": instances are told apart by a serial that must not repeat
     from . import c04
